@@ -8,7 +8,7 @@ A *scenario* is a JSON-able dict
      "lifespan": ["recv", "await", "startup_complete", ...],      # LIFESPAN_ACTS
      "await_s": 0.15,                                             # duration of one "await" action
      "config": {"startup_timeout": .., "shutdown_timeout": .., "graceful_timeout": .., "max_requests": null | n},
-     "clients": [{"id": 0, "kind": "h1" | "h2" | "ws", "steps": [[...], ...]}, ...],
+     "clients": [{"id": 0, "kind": "h1" | "h2" | "ws" | "h2c" | "seq", "steps": [[...], ...]}, ...],
      "trigger_at": seconds | null,                                # when the harness lets `shutdown_trigger` return
      "observe_until": seconds,                                    # serve() not back by then -> outcome "stuck"
      "trigger_after": {"scope": n, "http_done": m},               # optional: the trigger (due at trigger_at) also waits until the
@@ -630,7 +630,126 @@ class WsClient(Client):
                 return
 
 
-CLIENTS = {"h1": H1Client, "h2": H2Client, "ws": WsClient}
+class H2cClient(H2Client):
+    """HTTP/1.1 request with `Upgrade: h2c` (RFC 7540 3.2): the request is answered on stream 1 of the upgraded connection;
+    further requests are ordinary streams (`stream` step)"""
+
+    def after_connect(self) -> None:
+        self.eof = False
+        self.ended: set = set()
+
+    def ev(self, kind: str, **data: Any) -> None:
+        if kind in ("h2_end", "h2_reset"):
+            self.ended.add(data.get("sid"))
+        super().ev(kind, **data)
+
+    def do_upgrade(self, path: str) -> None:
+        if self.sock is None:
+            return
+        import h2.config
+        import h2.connection
+        self.h2 = h2.connection.H2Connection(config=h2.config.H2Configuration(client_side=True, header_encoding="utf-8"))
+        settings = self.h2.initiate_upgrade_connection()
+        ok = self._send(f"GET {path} HTTP/1.1\r\nhost: harness\r\nconnection: Upgrade, HTTP2-Settings\r\nupgrade: h2c\r\n".encode()
+                        + b"http2-settings: " + settings + b"\r\n\r\n")
+        self.ev("sent_request", path=path, ok=ok, upgrade="h2c")
+        end = time.monotonic() + 2.0
+        while b"\r\n\r\n" not in self.buf:
+            left = end - time.monotonic()
+            data = self._recv(left) if left > 0 else None
+            if not data:
+                self.eof = data == b""
+                self.ev("upgrade_answer", status=None, ended="eof" if self.eof else "timeout")
+                return
+            self.buf += data
+        head, rest = self.buf.split(b"\r\n\r\n", 1)
+        self.buf = b""
+        status = int(head.split(b"\r\n")[0].split()[1])
+        self.ev("upgrade_answer", status=status)
+        if status != 101:
+            return
+        self._send(self.h2.data_to_send())          # client preface + SETTINGS
+        if rest:
+            self._feed(rest)
+
+    def _feed(self, data: bytes) -> None:
+        """bytes that arrived behind the 101 in the same segment"""
+        import h2.events
+        for e in self.h2.receive_data(data):
+            if isinstance(e, h2.events.ResponseReceived):
+                self.ev("h2_response", sid=e.stream_id, status=int(dict(e.headers).get(":status", "0")))
+            elif isinstance(e, h2.events.DataReceived):
+                self.h2.acknowledge_received_data(e.flow_controlled_length, e.stream_id)
+                self.ev("h2_data", sid=e.stream_id, n=len(e.data))
+            elif isinstance(e, h2.events.StreamEnded):
+                self.ev("h2_end", sid=e.stream_id)
+        out = self.h2.data_to_send()
+        if out:
+            self._send(out)
+
+    def do_await_stream(self, sid: int, timeout: float) -> None:
+        if self.sock is None or not hasattr(self, "h2"):
+            return
+        end = time.monotonic() + timeout
+        while sid not in self.ended and not self.eof and time.monotonic() < end and self.sock is not None:
+            self._pump(0.02)
+
+
+class _TrackingH2Client(H2Client):
+    def after_connect(self) -> None:
+        self.ended: set = set()
+        super().after_connect()
+
+    def ev(self, kind: str, **data: Any) -> None:
+        if kind in ("h2_end", "h2_reset"):
+            self.ended.add(data.get("sid"))
+        super().ev(kind, **data)
+
+    do_await_stream = H2cClient.do_await_stream
+
+
+class SeqClient(Client):
+    """one thread that makes complete short connections of different kinds one after the other (requests spread over
+    HTTP/1.1, prior-knowledge HTTP/2, `Upgrade: h2c` and WebSocket connections that share one worker):
+    ["conn", kind, path]  with kind in h1 | h1x2 (two keep-alive requests) | h2 | h2x2 | h2c | h2c+1 (upgrade, then one more
+    stream) | ws.  Every connection is finished (answer read, connection closed) before the step returns."""
+
+    def _sub(self, cls):
+        c = cls(self.rec, self.port, {"id": self.cid, "steps": []}, self.stop)
+        c.do_connect()
+        return c
+
+    def do_conn(self, kind: str, path: str, pause: float = 0.06) -> None:
+        if kind in ("h1", "h1x2"):
+            c = self._sub(H1Client)
+            for i in range(2 if kind == "h1x2" else 1):
+                if i:
+                    self.do_sleep(pause)
+                c.do_get(path + ("" if i == 0 else "b"))
+                c.do_read(2.0)
+        elif kind in ("h2", "h2x2"):
+            c = self._sub(_TrackingH2Client)
+            for i in range(2 if kind == "h2x2" else 1):
+                if i:
+                    self.do_sleep(pause)
+                c.do_stream(path + ("" if i == 0 else "b"))
+                c.do_await_stream(1 + 2 * i, 2.0)
+        elif kind in ("h2c", "h2c+1"):
+            c = self._sub(H2cClient)
+            c.do_upgrade(path)
+            c.do_await_stream(1, 2.0)
+            if kind == "h2c+1":
+                self.do_sleep(pause)
+                c.do_stream(path + "b")
+                c.do_await_stream(3, 2.0)
+        elif kind == "ws":
+            c = self._sub(WsClient)
+        else:
+            raise HarnessFailure(f"unknown connection kind {kind}")
+        c.do_close()
+
+
+CLIENTS = {"h1": H1Client, "h2": H2Client, "ws": WsClient, "h2c": H2cClient, "seq": SeqClient}
 
 
 # --------------------------------------------------------------------------------------------------------------
